@@ -1,4 +1,5 @@
 import Rivaas.Lemmas.OpenAPISpec
+set_option linter.unusedSimpArgs false
 /-
 C07 — helper lemmas: the projected schemas satisfy the WF fragment.
 -/
@@ -160,6 +161,25 @@ theorem wfSchema_proj (v : Version) (ns : List B) (t : IR) (h : Good ns t) : wfS
   · exact Tree.All.project (fun hd hnd => head30_ok hd hnd) t (Tree.All.mono (fun _ x => x) (fun _ _ => trivial) t h)
   · exact Tree.All.project (fun hd hnd => head31_ok hd hnd) t (Tree.All.mono (fun _ x => x) (fun _ _ => trivial) t h)
 
+/-- the model's `ValidateResponseCode` accepts exactly the keys the oracle's transcription accepts -/
+theorem specCodeOK_of_valid (c : B) (h : validResponseCode c = true) : specCodeOK c = true := by
+  simp only [validResponseCode, Bool.or_eq_true, decide_eq_true_eq] at h
+  simp only [specCodeOK, Bool.or_eq_true, decide_eq_true_eq]
+  rcases h with h | h
+  · exact Or.inl h
+  · right
+    split at h
+    next a b d =>
+      simp only [Bool.and_eq_true, Bool.or_eq_true, decide_eq_true_eq] at h
+      simp only [length_cons, length_nil, head?_cons, drop_succ_cons, drop_zero, all_cons, all_nil, Bool.and_true,
+        Bool.and_eq_true, Bool.or_eq_true, decide_eq_true_eq, cons.injEq, and_true, beq_iff_eq]
+      refine ⟨⟨trivial, h.1⟩, ?_⟩
+      rcases h.2 with hd | hx
+      · left
+        simpa only [isDigit, Bool.and_eq_true, decide_eq_true_eq] using hd
+      · exact Or.inr hx
+    · cases h
+
 /-- the operation clause of WF, from the shape and the schemas -/
 theorem wfOperation_of_shape (v : Version) {route : B} {o : Operation Schema} (h : OpShape route o)
     (hs : ∀ x ∈ o.schemas, wfSchema v x = true) : wfOperation v o = true := by
@@ -188,7 +208,7 @@ theorem wfOperation_of_shape (v : Version) {route : B} {o : Operation Schema} (h
   · intro r hr
     obtain ⟨h1, h2⟩ := h.resps r hr
     simp only [wfResp, Bool.and_eq_true]
-    refine ⟨⟨h1, by simpa using h2⟩, ?_⟩
+    refine ⟨⟨specCodeOK_of_valid _ h1, by simpa using h2⟩, ?_⟩
     cases hx : r.schema with
     | none => rfl
     | some x =>
